@@ -54,16 +54,16 @@ def run_cases(ctx, n, rational_share=0.7, with_sources=True):
         cases.append({"steps": steps, "corr": corr, "model": w.model, "obs": observations})
         # second phase: change a central value, recalculate every result, observe again (the results must be
         # those of the formula at the NEW central values: intermediate results may not keep anything back)
-        ch = CL.pick_value_change(w.model, rng) if rng.random() < 0.6 else None
+        ch = CL.pick_change(w.model, rng, corr) if rng.random() < 0.6 else None
         if ch:
             try:
-                w.objs[ch[0]].value = ch[1]
+                CL.apply_change_impl(w, ch)
                 for k in w.derived_ids():
                     w.objs[k].recalculate()
                 obs2 = [w.observe(k, with_sources) for k in reversed(w.derived_ids())]
-                cases.append({"steps": steps, "corr": corr, "change": list(ch), "model": CL.with_value(w.model, *ch),
+                cases.append({"steps": steps, "corr": corr, "change": list(ch), "model": CL.apply_change_model(w.model, ch),
                               "obs": obs2})
-                res.count("phase2:value-change+recalculate")
+                res.count("phase2:{}-change+recalculate".format(ch[0]))
             except Exception as e:
                 cases.append({"steps": steps, "corr": corr, "change": list(ch), "error": "{}: {}".format(type(e).__name__, e)})
         res.evaluations += 1
@@ -143,13 +143,14 @@ def oracle_program(steps, corr, change=None):
             why = CL.oracle_object(model, corr, obs)
             if why:
                 return "{}object {} ({}): {}".format(
-                    "" if phase == 1 else "after measurement {} := {} and recalculate(): ".format(*change), k, model[k], why)
+                    "" if phase == 1 else "after {} of measurement {} := {} and recalculate(): ".format(*CL.norm_change(change)),
+                    k, model[k], why)
         if not change or phase == 2:
             break
-        w.objs[change[0]].value = change[1]
+        CL.apply_change_impl(w, change)
         for k in w.derived_ids():
             w.objs[k].recalculate()
-        model = CL.with_value(w.model, *change)
+        model = CL.apply_change_model(w.model, change)
     return None
 
 
@@ -217,8 +218,7 @@ def change_for(steps, corr, rng):
         w = CL.execute(steps, corr)
     except Exception:
         return None
-    ch = CL.pick_value_change(w.model, rng)
-    return list(ch) if ch else None
+    return CL.pick_change(w.model, rng, corr)
 
 
 def replay(ctx, v):
